@@ -723,6 +723,9 @@ package statefulset
 //@     invariant forall i int :: {sets[i]} 0 <= i && i < j ==> gEnq[setKey(sets[i])]
 //@     invariant forall k string :: {gEnq[k]} gEnq[k] && !old(gEnq[k]) ==> (exists i int :: {sets[i]} 0 <= i && i < j && k == setKey(sets[i]))
 
+//@ func StatefulSetController.sync@StatefulSetController.processNextWorkItem
+//@   sameas StatefulSetController.sync
+//@   requires [C09,C16] handover: key == gKey    -- the set that is reconciled is the one whose key was taken from the queue
 //@ func StatefulSetController.processNextWorkItem
 //@   requires ssc != nil && ssc.queue != nil && ssc.setLister != nil && ssc.control != nil && ssc.kubeClient != nil && ssc.pcClient != nil && ssc.podLister != nil && ssc.podControl != nil
 //@   ghost var gKey string
